@@ -12,7 +12,7 @@ DEFAULT_INPUTS = R(("l", L(N(1), N(2), N(3))), ("n", N(5)), ("s", S("str")))
 DEFAULT_INPUTS_JSON = json.dumps({"n": 5, "s": "str", "l": [1, 2, 3]})
 
 REQUIRES = ["Blots.Num", "Blots.gen.Builtins", "Blots.Ast", "Blots.Value", "Blots.Outcome", "Blots.Env",
-            "Blots.Eval", "Blots.Program", "Blots.EvalInst"]
+            "Blots.Eval", "Blots.Program", "Blots.EvalInst", "Blots.EvalFull"]
 
 
 def parse_to_coq(h, srcs):
@@ -43,7 +43,7 @@ def rust_eval(h, srcs, inputs_json=DEFAULT_INPUTS_JSON):
     return c.harness_lines_resilient(h, "eval", lines)
 
 
-def model_eval(coq_progs, inputs=DEFAULT_INPUTS, tag="eval", fn="run_program"):
+def model_eval(coq_progs, inputs=DEFAULT_INPUTS, tag="eval", fn="run_program_full"):
     """coq_progs: list of Gallina terms (or None).  Returns list of result strings / None."""
     inp = "[" + "; ".join('((hx "%s"), %s)' % (c.hexs(k), v.coq()) for k, v in inputs.p) + "]" if inputs else "[]"
     idx = [i for i, p in enumerate(coq_progs) if p is not None]
